@@ -1,7 +1,11 @@
-import Driver.Common
-/-! Line-protocol handlers for C18 (sub-commands `c18` / `c18-*`). -/
+import Driver.C08
+/-! Line-protocol handlers for C18 (sub-commands `c18-ipv4`, `c18-udp`, `c18-tcp`): the op set of
+`Driver/C08.lean`; the harness (built with `compute_checksum`) announces `ck 1`. -/
 namespace Driver.C18
 
-def dispatch (_sub : String) (_i _o : IO.FS.Stream) : Option (IO Unit) := none
+def dispatch (sub : String) (i o : IO.FS.Stream) : Option (IO Unit) :=
+  if sub == "c18-ipv4" || sub == "c18-udp" || sub == "c18-tcp" then
+    some (Driver.loop i o Driver.C08.step true)
+  else none
 
 end Driver.C18
